@@ -15,7 +15,7 @@ VERIF = os.path.dirname(os.path.dirname(os.path.abspath(__file__)))
 REPO = os.environ.get('CBV_REPO', '/repo')
 WORK = os.path.join(VERIF, '.work')
 DRIVER = os.path.join(VERIF, 'driver', 'target', 'release', 'cbv-mirdump')
-EVIDENCE = os.path.join(VERIF, 'evidence')
+EVIDENCE = os.environ.get('CBV_EVIDENCE') or os.path.join(VERIF, 'evidence')
 REPLAY = os.path.join(EVIDENCE, 'replay')
 KNOWN = os.path.join(VERIF, 'known_findings.json')
 
@@ -60,7 +60,9 @@ def ensure_driver():
             raise InfraError('driver build failed:\n' + r.stdout[-3000:])
 
 
-def extract(profile='dev', repo=REPO, packages=None, tag=''):
+def extract(profile='dev', repo=REPO, packages=None, tag=None):
+    if tag is None:
+        tag = os.environ.get('CBV_TAG', '')
     """run the driver over the workspace; returns the directory holding the fact files.
     Cached by content hash of the tree, the driver and the configuration."""
     ensure_driver()
@@ -117,8 +119,9 @@ def extract(profile='dev', repo=REPO, packages=None, tag=''):
         # prune old fact dirs
         fdir = os.path.join(WORK, 'facts')
         ds = sorted((os.path.getmtime(os.path.join(fdir, d)), d) for d in os.listdir(fdir))
-        for _, d in ds[:-8]:
-            shutil.rmtree(os.path.join(fdir, d), ignore_errors=True)
+        for mt, d in ds[:-12]:
+            if time.time() - mt > 1800:      # never touch a directory another process may be filling
+                shutil.rmtree(os.path.join(fdir, d), ignore_errors=True)
         return out
     finally:
         fcntl.flock(lock, fcntl.LOCK_UN)
@@ -166,8 +169,14 @@ class Check:
 
     def ob(self, rule, key, ok, where='', detail='', nontrivial=True, data=None):
         """record an obligation. key is stable (no line numbers)."""
-        self.obs.append({'rule': rule, 'key': key, 'ok': bool(ok), 'where': where, 'detail': detail,
-                         'nontrivial': nontrivial, 'data': data})
+        rec = {'rule': rule, 'key': key, 'ok': bool(ok), 'where': where, 'detail': detail,
+               'nontrivial': nontrivial, 'data': data}
+        for i, o in enumerate(self.obs):
+            if o['rule'] == rule and o['key'] == key:
+                if o['ok'] and not ok:
+                    self.obs[i] = rec      # a failing instance wins over a passing one
+                return bool(ok)
+        self.obs.append(rec)
         return bool(ok)
 
     def missing(self, rule, what):
